@@ -123,9 +123,10 @@ namespace Src
 def size : Src → Nat
   | ext b => b.length
   | mem _ _ n => n
+/-- what memmove(dst, src, n) reads; nothing at all when n = 0 -/
 def fetch (h : Heap) : Src → Option Bytes
   | ext b => some b
-  | mem b off n => h.read b off n
+  | mem b off n => if n = 0 then some [] else h.read b off n
 end Src
 
 /-! ### MemBlob -/
@@ -191,8 +192,9 @@ def cow (c : Cfg) (h : Heap) (i newsize : Nat) : Out Heap :=
 /-- SBuf::rawSpace(minSpace): on `ok` the caller may write at `bufEnd()` -/
 def rawSpace (c : Cfg) (h : Heap) (i minSpace : Nat) : Out Heap :=
   let v := h.view i
-  -- Must(length() <= maxSize - minSpace), in size_type arithmetic
-  if v.len > (maxSize + W - minSpace) % W then .thrown h
+  -- [Must(minSpace <= maxSize) where present;] Must(length() <= maxSize - minSpace), in size_type arithmetic
+  if !Gen.SBufConsts.rawSpaceDiffWraps && decide (minSpace > maxSize) then .thrown h
+  else if v.len > (maxSize + W - minSpace) % W then .thrown h
   else if (h.blob v.blob).canAppend (v.off + v.len) minSpace then .ok h
   else cow c h i ((minSpace + v.len) % W)
 
@@ -272,11 +274,16 @@ def appendS (c : Cfg) (h : Heap) (i j : Nat) : Out Heap :=
   if vi.len = 0 ∧ vi.blob = 0 then .ok (assignS h i j)      -- isEmpty() && store_ == GetStorePrototype()
   else withLocker h i (some (vj.blob, vj.off)) fun h => lowAppend c h i (.mem vj.blob vj.off vj.len)
 
+/-- the second half of chop()'s cap test: `(pos+n) > length()` in size_type arithmetic (pinned snapshot),
+    or a comparison that cannot wrap (`n > length() - pos`, with pos <= length() here) -/
+def chopOver (pos n len : Nat) : Bool :=
+  if Gen.SBufConsts.chopSumWraps then decide ((pos + n) % W > len) else decide (n > len - pos)
+
 /-- SBuf::chop(pos, n) -/
 def chop (h : Heap) (i pos n : Nat) : Heap :=
   let v := h.view i
   let pos := if pos = npos ∨ pos > v.len then v.len else pos
-  let n := if n = npos ∨ (pos + n) % W > v.len then v.len - pos else n
+  let n := if n = npos ∨ chopOver pos n v.len then v.len - pos else n
   if pos = v.len ∨ n = 0 then clear h i
   else h.setView i { v with off := v.off + pos, len := n }
 
@@ -405,7 +412,9 @@ def rawAppend (c : Cfg) (h : Heap) (i n : Nat) (bytes : Bytes) : Out (Heap × Ra
     else
       -- the caller wrote at mem[off_+len_ ..); `store_->size = off_ + newSize` makes exactly that the used area
       if v.off + v.len ≤ b.size then
-        .ok ((h1.setBlob v.blob { b with data := b.data.take (v.off + v.len) ++ bytes }).setView i { v with len := v.len + k }, .done)
+        let data' := if Gen.SBufConsts.finishAssignsSize then b.data.take (v.off + v.len) ++ bytes   -- store_->size = off_ + newSize
+                     else b.data ++ bytes                                                          -- store_->appended(actualSize)
+        .ok ((h1.setBlob v.blob { b with data := data' }).setView i { v with len := v.len + k }, .done)
       else .ub
 
 /-- SBuf::vappendf, with vsnprintf abstracted to its output (NUL-free) for a format of `fmtLen` characters.
@@ -414,7 +423,7 @@ def vappendf (c : Cfg) (h : Heap) (i fmtLen : Nat) (out : Heap → Option Bytes)
   let v0 := h.view i
   -- const Locker blobKeeper(this, buf())
   withLocker h i (some (v0.blob, v0.off)) fun h => do
-    let h1 ← rawSpace c h i ((fmtLen * 2) % W)
+    let h1 ← rawSpace c h i ((fmtLen * 2 + Gen.SBufConsts.vappendfExtra) % W)
     match out h1 with
     | none => .ub
     | some o =>
